@@ -174,6 +174,21 @@ Theorem C09_skip_publication_for_local_target_refuted :
 Proof. exact skip_local_target_refuted. Qed.
 Print Assumptions C09_skip_publication_for_local_target_refuted.
 
+(* (1f) refused opens.  A source-side TunnelOpen that startSourceBridge refuses (duplicate for a waiting id on the same node,
+   failed open on another node) makes no routing-table call: C09_waiting_bridge_routable allows BRefused of ANY id - the waiting
+   id included - on ANY node and duplicate BStart on the node.  The variant whose error path removes the id's record wipes the
+   record of the tunnel that is legitimately waiting: *)
+Theorem C09_cleanup_on_refusal_refuted :
+  let c := cfg_hybrid true 30000000000 in
+  let '(os1, ix1) := bcalls ex_ix0 (BStart 0 ex_rec) in
+  let s1 := ex_final c (init ex_gstr) os1 in
+  Forall (bwaiting 0 (w_tunnel ex_rec)) ex_refused_history
+  /\ ex_lookup c (ex_final c s1 (fst (bcompile ix1 ex_refused_history))) 1 (w_tunnel ex_rec) = ROk (stamp ex_rec 0 30000000000)
+  /\ ex_lookup c (ex_final c s1 (fst (bcalls_cleanup_on_refusal ix1 (BStart 0 ex_rec_dup)))) 1 (w_tunnel ex_rec) = RNotFound
+  /\ ex_lookup c (ex_final c s1 (fst (bcalls_cleanup_on_refusal ix1 (BRefused 1 (w_tunnel ex_rec))))) 0 (w_tunnel ex_rec) = RNotFound.
+Proof. exact cleanup_on_refusal_refuted. Qed.
+Print Assumptions C09_cleanup_on_refusal_refuted.
+
 (* (2e) the target node's polling lookup (lookupTunnelRouting / handleLocalBridgeWait), target arrives FIRST: it polls through
    any number of rounds in which anything may happen; the source publishes during some round; then the polling resolves at
    the latest at the first poll after the publication, with exactly the registered record ... *)
